@@ -23,8 +23,9 @@
   Identifiers (UIDs, addresses) are `Nat`. A nil `sdkmath.Int` / `LegacyDec` in a ticket payload is `none`;
   stored records hold 0 instead (protobuf round trip). A failing or panicking message leaves the state unchanged.
 
-  `State.fixed = true` selects the behaviour of repo_patches/reward_negative_components.diff
-  (CreateCampaignPayload.Validate rejects negative reward components).
+  `State.fixed = true` selects the behaviour of the repository with repo_patches/reward_*.diff applied:
+    reward_negative_components.diff              CreateCampaignPayload.Validate rejects negative reward components
+    reward_register_withdraw_authorization.diff  WithdrawCampaignAuthorization is registered as authz.Authorization
 -/
 import Sge.Dec
 namespace Sge.Reward
@@ -43,7 +44,7 @@ inductive Err where
   | ended | notstarted
   | calcTicket | calcKyc | calcSrc | calcNoRef | calcIsSub | calcBet
   | cap | catcap | pool | distribute
-  | blocked | insufficient | env
+  | blocked | insufficient | env | codec
 deriving DecidableEq, Repr, Inhabited
 
 /-! ## records -/
@@ -673,9 +674,13 @@ def grantReward (s : State) (m : GrantMsg) : Except Err State :=
 
 /-! ## environment operations -/
 
-/-- authz `MsgGrant` (ValidateBasic + SaveGrant) -/
+/-- authz `MsgGrant` (transaction decoding, ValidateBasic, SaveGrant). `WithdrawCampaignAuthorization` is not
+    registered in `RegisterInterfaces` (types/codec.go), so a `MsgGrant` carrying it cannot be decoded; with
+    `fixed` (repo_patches/reward_register_withdraw_authorization.diff) it is registered. -/
 def authzGrant (s : State) (granter grantee kind : Nat) (limit : Option Int) (exp : Option Nat) : Except Err State :=
-  if granter = grantee then .error .basic
+  if 2 < kind then .error .basic
+  else if kind = 2 ∧ !s.fixed then .error .codec
+  else if granter = grantee then .error .basic
   else if !authValid kind limit then .error .basic
   else if (match exp with | some e => decide (e ≤ s.time) | none => false) then .error .authzSave
   else .ok { s with
@@ -699,9 +704,9 @@ def createSub (s : State) (owner : Nat) : Except Err State :=
 
 /-- bank `MsgSend` between plain accounts; the reward pool is a blocked address -/
 def bankSend (s : State) (frm to : Nat) (amt : Int) : Except Err State :=
-  if to = POOL then .error .blocked
+  if amt ≤ 0 then .error .basic
+  else if to = POOL then .error .blocked
   else if frm = POOL then .error .env
-  else if amt ≤ 0 then .error .basic
   else match send s.bank frm to amt with
     | .error e => .error e
     | .ok b => .ok { s with bank := b }
